@@ -12,12 +12,12 @@ import (
 // a wrapped-around position, and Read returns exactly s[i:] or EOF. A
 // second reader over the same slice is unaffected.
 func Harness_C10_bytesReader() {
-	n := zzsym.Choice("len", 4)
+	n := zzsym.Choice("len", zzsym.Param("maxlen", 3)+1)
 	data := zzsym.Bytes("d", n)
 	r := &bytesReader{s: &data, i: zzsym.Int64("i0")}
 	other := &bytesReader{s: &data, i: 0}
 	zzsym.Assume(r.i >= 0)
-	for k := 0; k < 2; k++ {
+	for k := 0; k < zzsym.Param("ops", 2); k++ {
 		old := r.i
 		if zzsym.Choice("op", 2) == 0 {
 			off := zzsym.Int64("off")
